@@ -26,6 +26,7 @@ import (
 
 	"github.com/rulego/streamsql/types"
 	"github.com/rulego/streamsql/utils/cast"
+	"github.com/rulego/streamsql/utils/verifhook"
 )
 
 // EnableDebug enables debug logging for window operations
@@ -156,6 +157,7 @@ func NewTumblingWindow(config types.WindowConfig) (*TumblingWindow, error) {
 
 // Add adds data to the tumbling window
 func (tw *TumblingWindow) Add(data any) {
+	verifhook.Point("tumbling.add")
 	// Lock to ensure thread safety
 	tw.mu.Lock()
 	defer tw.mu.Unlock()
@@ -224,6 +226,7 @@ func (tw *TumblingWindow) Add(data any) {
 		Timestamp: eventTime,
 	}
 	tw.data = append(tw.data, row)
+	verifhook.Observe("window.add.ts", data, eventTime)
 	debugLog("Add: added data, eventTime=%v, totalData=%d, currentSlot=[%v, %v), inWindow=%v",
 		eventTime.UnixMilli(), len(tw.data),
 		tw.currentSlot.Start.UnixMilli(), tw.currentSlot.End.UnixMilli(),
@@ -529,6 +532,7 @@ func (tw *TumblingWindow) checkAndTriggerWindows(watermarkTime time.Time) {
 			if len(resultData) > 0 {
 				callback := tw.callback
 				tw.mu.Unlock()
+				verifhook.Point("tumbling.trigger.unlocked")
 				if callback != nil {
 					callback(resultData)
 				}
@@ -603,6 +607,7 @@ func (tw *TumblingWindow) handleLateData(eventTime time.Time, allowedLateness ti
 			if len(resultData) > 0 {
 				callback := tw.callback
 				tw.mu.Unlock()
+				verifhook.Point("tumbling.late.unlocked")
 				if callback != nil {
 					callback(resultData)
 				}
